@@ -9,6 +9,7 @@ let () =
     | "cycles" -> M_cycles.handle
     | "resolve" -> M_resolve.handle
     | "visit" -> M_visit.handle
+    | "validate" -> M_validate.handle
     | _ -> prerr_endline ("unknown component " ^ comp); exit 2 in
   let out = Buffer.create 65536 in
   (try while true do
